@@ -12,6 +12,7 @@ pub mod socks;
 pub mod http;
 pub mod auth;
 pub mod udp;
+pub mod cert;
 
 pub fn run(args: &Args, log: &Log) -> Result<(), String> {
     match args.driver.as_str() {
@@ -28,6 +29,7 @@ pub fn run(args: &Args, log: &Log) -> Result<(), String> {
         "http" => http::run(args, log),
         "auth" => auth::run(args, log),
         "udp" => udp::run(args, log),
+        "cert" => cert::run(args, log),
         d => Err(format!("unknown driver {d}")),
     }
 }
